@@ -91,6 +91,17 @@ CLAIMED = {
              "trip are covered by the correspondence (rshift/req/rhasheq/rtext ops), the latter not yet modelled.",
         design="DESIGN §8 C14",
         technique="Lean 4 proof + model/implementation correspondence"),
+    "C15": dict(
+        text="Theorems over a state-machine model of the memoised calendar helpers (state = current mode spelling x cache): "
+             "for every table passing KeyDiscipline, after any history of set_mode and calls every cache entry equals the "
+             "cache-free value for the mode in its key, and any call returns what a fresh single-mode process computes; "
+             "C15_discipline decides by kernel evaluation that the table regenerated from data.py/dumpers.py (which "
+             "lru_cache'd function has a mode key, what CALENDAR attributes its closure reads, which call sites pass "
+             "CALENDAR.mode) satisfies the discipline; C15_modes: the seven spellings install exactly the four calendars "
+             "of the property text. Histories over the API, --calendar and ISODATETIMECALENDAR are compared with fresh "
+             "state in-process (quick) and fresh subprocesses (thorough).",
+        design="DESIGN §8 C15",
+        technique="Lean 4 proof (invariant by induction over histories) over a table regenerated from the source + history correspondence"),
     "C03": dict(
         text="Theorems over the Lean model: the six conversions are total on valid dates, produce valid dates and "
              "preserve the Spec day number (so all round trips are identities), for every year in Int and all four "
